@@ -57,6 +57,11 @@ def fold_table(repo):
         raise Unknown("insns.instructions is not the expected case-insensitive container")
     table = {}
     for key, (name, insn) in rec.fields["container"].items():
+        missing_i = [f_ for f_ in ("operands", "opcode_pattern") if f_ not in insn.fields]
+        if missing_i:
+            from ..report import Defect
+            raise Defect("insns::Instruction.__init__", f"the Instruction object of '{name}' has no attribute {missing_i}: compile_insn reads self.operands and self.opcode_pattern, so every instruction dies with AttributeError",
+                         "instruction object attributes")
         stubs = []
         for st in insn.fields["operands"]:
             missing = [f_ for f_ in ("pattern_char", "bit_indexes") if f_ not in st.fields]
